@@ -7,7 +7,7 @@ package signal
 // unlock, in front of the channel operations of Send/Recv/Full, inside Signal.signalSlow's make, …).
 // Here NO hook is installed and nobody is parked: 2-8 goroutines are let go at the same instant (spin
 // barrier, per-goroutine start offsets of 0-200 ns) on a fresh Signal / Chan, thousands of times,
-// so that the hardware interleaves the single loads and stores (6000 + 3000 rounds, ten times that in the
+// so that the hardware interleaves the single loads and stores (40000 + 40000 rounds, ten times that in the
 // thorough tier).  There is no schedule to replay on the
 // model; what is judged are the schedule-independent clauses of the property, with the same oracle
 // names as the directed families:
@@ -237,9 +237,9 @@ func freeRun(o *corr.Out) {
 	}
 	for _, isChan := range []bool{true, false} {
 		kind := "sig"
-		rounds := 3000
+		rounds := 40000
 		if isChan {
-			kind, rounds = "chan", 6000
+			kind, rounds = "chan", 40000
 		}
 		if o.Thorough {
 			rounds *= 10
